@@ -30,6 +30,7 @@ type HarnessDef struct {
 	MaxPaths  [2]int // optional safety cap per tier (hit => reduced bound reported as failure)
 	NoReplay  bool   // harness cannot be replayed natively (concurrent schedules, model-only environment)
 	SolverMs  [2]int
+	Files     []string // harness source files (base names) this harness needs in its package dir; empty = all files of the dir
 	Quiet     []string // import-path prefixes: no preemption inside these packages (schedule reduction, stated in the evidence)
 	OSSwap    []string // packages whose "os" import is pointed at verifrt/vos in the native replay build (real op log for crash images)
 }
@@ -106,6 +107,30 @@ func cmdCheck(args []string) int {
 	ti := 0
 	if *tier == "thorough" {
 		ti = 1
+	}
+	overlayFiles = map[string]map[string]bool{}
+	for _, h := range def.Harnesses {
+		dir := strings.TrimPrefix(fullPkg(h.Pkg), sym.RepoModule+"/")
+		dir = strings.Replace(dir, "sdk/go/hydraidego/v3", "sdk/go/hydraidego", 1)
+		if len(h.Files) == 0 {
+			delete(overlayFiles, dir)
+			overlayFiles[dir] = nil
+			continue
+		}
+		if m, ok := overlayFiles[dir]; ok && m == nil {
+			continue
+		}
+		if overlayFiles[dir] == nil {
+			overlayFiles[dir] = map[string]bool{}
+		}
+		for _, f := range h.Files {
+			overlayFiles[dir][f] = true
+		}
+	}
+	for d, m := range overlayFiles {
+		if m == nil {
+			delete(overlayFiles, d)
+		}
 	}
 	ov, err := buildOverlay()
 	if err != nil {
